@@ -23,7 +23,7 @@ package tooling
 
 //@ func getAllFramesFromDataFrame
 //@   mode int
-//@   option sort-members
+//@   option sort-perm
 //@   fnpure dataFrameGetter
 //@   fncall dataFrameGetter ensures result1 == nil ==> result0 != nil
 //@   requires firstDataFrame != nil && dataFrameGetter != nil
